@@ -14,7 +14,7 @@ TECHNIQUE = ('abstract interpretation of the study driver multiprocessing_run, i
              'effect trace, process pool = sequential application, study function = counting stub, clock / psutil = constants); every prefix of the effect trace of the model study, every '
              'combination of per-case progress of concurrent workers, and every pair of successive kills is a kill point from which the driver is interpreted again; outcomes compared with the '
              'uninterrupted model run')
-LEVEL_TEXT = ('Decided on model studies (grids of 3 to 6 cases; list / tuple / empty must-include, linear and log scales, pathos and stdlib pools, a case that raises): from every kill point the '
+LEVEL_TEXT = ('Decided on model studies (grids of 3 to 6 cases, one 12-case study for repeated restarts (case numbers of one and two digits); list / tuple / empty must-include, linear and log scales, pathos and stdlib pools, a case that raises): from every kill point the '
               'restarted study completes, every case ends with exactly one result equal to the uninterrupted run\'s, cases whose success marker had been written are not executed again, no case is '
               'executed twice, and every record carries the case number it was run under and the grid index of the inputs it was run with. The file system model makes every write call durable at '
               'once and np.savez two-phase (created incomplete, then complete), which is a superset of the states a killed process can leave.')
